@@ -53,15 +53,15 @@ Grid(sl) ==
           rset |-> {"default", "wide"}, bo |-> {"b2m4"}, st |-> {"ok2xx", "s413", "s503", "s500", "o4xx"},
           raa |-> RA7, exc |-> ExcAll]
     [] sl = "ra_depth" ->        \* thorough: every Retry-After shape
-         [mode |-> {"retry"}, mr |-> {0, 1, 2}, conn |-> BOOLEAN, ra |-> BOOLEAN, rset |-> {"default"},
-          bo |-> {"b2m4"}, st |-> {"ok2xx", "s413", "s429", "s503", "s500"}, raa |-> RAAll, exc |-> ExcAll]
+         [mode |-> {"retry"}, mr |-> {0, 1, 2}, conn |-> {TRUE}, ra |-> BOOLEAN, rset |-> {"default"},
+          bo |-> {"b2m4"}, st |-> {"ok2xx", "s429", "s503"}, raa |-> RAAll, exc |-> ExcAll]
     [] sl = "status_breadth" ->  \* thorough: every status class x every retryable set
          [mode |-> {"retry"}, mr |-> {0, 1, 2}, conn |-> {TRUE}, ra |-> {TRUE},
           rset |-> {"default", "none", "custom", "wide"}, bo |-> {"b2m4"}, st |-> StAll,
           raa |-> {"absent", "secs_small", "inf"}, exc |-> ExcAll]
     [] sl = "backoff_breadth" -> \* thorough: every (base, max) pair
-         [mode |-> {"retry"}, mr |-> {0, 1, 2}, conn |-> {TRUE}, ra |-> BOOLEAN, rset |-> {"default", "custom"},
-          bo |-> {"b2m4", "b0m4", "b2m32", "b2m0", "b8m4"}, st |-> {"ok2xx", "s413", "s503", "s500"},
+         [mode |-> {"retry"}, mr |-> {0, 1, 2}, conn |-> BOOLEAN, ra |-> BOOLEAN, rset |-> {"default"},
+          bo |-> {"b0m4", "b2m32", "b2m0", "b8m4"}, st |-> {"ok2xx", "s413", "s503"},
           raa |-> RA7, exc |-> ExcAll]
     [] sl = "stream_full" ->     \* thorough: exchange / cancel over the full alphabet
          [mode |-> {"exchange", "cancel"}, mr |-> {0, 2}, conn |-> {TRUE}, ra |-> {TRUE},
